@@ -4,7 +4,7 @@ import ast
 
 from .. import AnalysisError
 from ..cfg import ALL_KINDS, NORMAL_KINDS, iter_own
-from ..lib import attr_stores, dominated_by, guard_forms, key_of, render, type_is, type_name, unlocked_writers
+from ..lib import iteration_paths, attr_stores, dominated_by, guard_forms, key_of, render, type_is, type_name, unlocked_writers
 from ..report import describe, rule
 
 P = "C09"
@@ -19,7 +19,8 @@ describe(
     "the cluster lock is held (so a reader with the lock free never sees one file updated without the other); the version "
     "increment, the version-file write and the data-file write happen together; jobs are marked done only for names of "
     "collected results or together with the appended canceled result; remaining blockers are cleared once submitted/done "
-    "before both files are serialised.",
+    "before both files are serialised."
+    " The blocker-clearing loop follows every state/blocker change of the update; after a resubmission reset both counters equal the counts over the states left behind, decided by evaluating one pass of the reset loop over the finite abstraction (selected?) x (state before).",
     [
         "Allow-list (one symbol, one reason each): Cluster.create - the directory is not yet published to any other process",
     ],
@@ -200,6 +201,23 @@ def c09_4(ctx, r):
                 "the text written to the data file was produced before the version increment (file content and version file disagree)")
 
 
+def returned_accumulators_persist(ctx, r, rid):
+    """The collections returned by _update_completed_jobs accumulate over all passes of its fixpoint loop: none of
+    them is re-bound inside a loop (a re-initialisation per pass drops the names collected by the earlier passes)."""
+    ucj = ctx.fn("HpcSubmitter._update_completed_jobs", rid)
+    rets = [n for n in iter_own(ucj.node) if isinstance(n, ast.Return)]
+    if len(rets) != 1 or not isinstance(rets[0].value, ast.Tuple) or not all(isinstance(e, ast.Name) for e in rets[0].value.elts):
+        raise AnalysisError(rid, "_update_completed_jobs does not return a tuple of locals")
+    for e in rets[0].value.elts:
+        binds = [n for n in iter_own(ucj.node) if isinstance(n, (ast.Assign, ast.AugAssign, ast.AnnAssign)) and any(isinstance(t, ast.Name) and t.id == e.id for t in (n.targets if isinstance(n, ast.Assign) else [n.target]))]
+        if not binds:
+            raise AnalysisError(rid, f"returned local {e.id} is never bound")
+        inloop = [b for b in binds if isinstance(b, ast.Assign) and ctx.enclosing(ucj, b, (ast.For, ast.While))]
+        r.check(not inloop, f"returned accumulator `{e.id}` is bound once, outside the fixpoint loop", key_of(ucj, f"{e.id} re-bound inside a loop"), ucj.loc(inloop[0]) if inloop else ucj.loc(),
+                f"`{e.id}` is re-initialised on every pass of the loop: what the earlier passes collected (results already moved into the consolidated file / jobs already canceled) is not returned, "
+                "so those jobs are never marked done although their rows were consumed", "reported as newly completed to exactly one submitter round")
+
+
 @rule(P, "C09.5", "T8", "jobs are marked done only for collected results, or together with the appended canceled result", min_obligations=5)
 def c09_5(ctx, r):
     # (a) Cluster._update_job_status: DONE for names in completed_job_names  (C09.2 checks the loop)
@@ -254,6 +272,7 @@ def c09_5(ctx, r):
         r.check(ok and src_ok, "newly-completed names are result.name of collected results / this pass's canceled results", key_of(ucj, f"insert into {var}"), ucj.loc(a),
                 f"{ctx.src(a)}: a job name enters the completed set that is not the name of a result moved by process_results() or created by _cancel_job",
                 "every done job has a recorded result")
+    returned_accumulators_persist(ctx, r, "C09.5")
     # (c) _cancel_job: DONE paired with append_result of a CANCELED result
     cj = ctx.fn("HpcSubmitter._cancel_job", "C09.5")
     body = cj.node.body
@@ -287,6 +306,17 @@ def c09_6(ctx, r):
         r.check(ok_g, "cleared for state in (SUBMITTED, DONE)", key_of(fn, "clear guard"), fn.loc(c), f"blocked_by.clear() is guarded by {sorted(f for f, p in forms)}")
     sers = ctx.nodes_with_effect(fn, "SERIALIZE_CONFIG") + ctx.nodes_with_effect(fn, "SERIALIZE_JOBS")
     heads = [x for x in cfg.nodes if x.kind == "for" and any(x.ast is l for _, c in clears for l in ctx.enclosing(fn, c, (ast.For,))[:1])]
+    # ... and after every state / blocker change of this update (a job submitted by this very update must be cleared too)
+    from ..lib import reachable_from
+
+    for h in heads:
+        after = reachable_from(ctx, fn, h, NORMAL_KINDS)
+        for x in cfg.nodes:
+            a = x.ast
+            if x.kind == "stmt" and isinstance(a, ast.Assign) and any(isinstance(t, ast.Attribute) and t.attr in ("state", "blocked_by") for t in a.targets) and not any(l is h.ast for l in ctx.enclosing(fn, a, (ast.For,))):
+                r.check(x.id not in after, f"`{ctx.src(a)[:40]}` happens before the clearing loop", key_of(fn, f"{ctx.src(a.targets[0])} changed after the clearing loop"), fn.loc(a),
+                        f"`{ctx.src(a)}` runs after blocked_by was cleared for submitted/done jobs: a job that this update marks submitted/done keeps its remaining blockers in the persisted status "
+                        "(with try-add-blocked a job is submitted together with its blockers)", "its remaining-blockers set only shrinks and is empty once submitted")
     for s in sers:
         r.check(dominated_by(ctx, fn, s, heads), "serialisation follows the clearing loop", key_of(fn, "serialize after clear"), fn.loc(s.stmt), "state is serialised before blocked_by of submitted/done jobs was cleared")
     r.check(ctx.must(fn, "SERIALIZE_CONFIG") and ctx.must(fn, "SERIALIZE_JOBS"), "_update_job_status serialises both files on every normal path", key_of(fn, "serialize both"), fn.loc(),
@@ -324,3 +354,113 @@ def c09_7(ctx, r):
     se = [n for sh in ("Cluster.serialize", "Cluster.serialize_jobs") for s in ctx.sites(cr, short=sh) for n in ctx.nodes_of(cr, s.node)]
     r.check(len(vw) == 2 and len(se) == 2 and all(dominated_by(ctx, cr, s, [v]) for s in se for v in vw), "both version files are written before the first (version-checked) serialisation", key_of(cr, "create order"), cr.loc(),
             "Cluster.create serialises before the version files exist (the first write fails) or never writes them")
+
+
+_STATES = ("NOT_SUBMITTED", "SUBMITTED", "DONE")
+
+
+def _eval_reset_cond(ctx, cond, selected, state, setname):
+    """Evaluate one atomic branch condition of the reset loop in the abstract cell (selected, state); None = unknown."""
+    if isinstance(cond, ast.UnaryOp) and isinstance(cond.op, ast.Not):
+        v = _eval_reset_cond(ctx, cond.operand, selected, state, setname)
+        return None if v is None else not v
+    if not (isinstance(cond, ast.Compare) and len(cond.ops) == 1):
+        return None
+    op, left, right = cond.ops[0], cond.left, cond.comparators[0]
+    if isinstance(left, ast.Attribute) and left.attr == "name" and isinstance(right, ast.Name) and right.id == setname and isinstance(op, (ast.In, ast.NotIn)):
+        return selected if isinstance(op, ast.In) else not selected
+
+    def st(e):
+        return e.attr if isinstance(e, ast.Attribute) and ctx.src(e.value) == "JobState" and e.attr in _STATES else None
+
+    if isinstance(left, ast.Attribute) and left.attr == "state":
+        if isinstance(op, (ast.Eq, ast.NotEq, ast.Is, ast.IsNot)) and st(right):
+            v = state == st(right)
+            return v if isinstance(op, (ast.Eq, ast.Is)) else not v
+        if isinstance(op, (ast.In, ast.NotIn)) and isinstance(right, (ast.Tuple, ast.List, ast.Set)) and all(st(e) for e in right.elts):
+            v = state in {st(e) for e in right.elts}
+            return v if isinstance(op, ast.In) else not v
+    if st(left) and isinstance(right, ast.Attribute) and right.attr == "state" and isinstance(op, (ast.Eq, ast.NotEq)):
+        v = state == st(left)
+        return v if isinstance(op, ast.Eq) else not v
+    return None
+
+
+def reset_recounts_from_states(ctx, r, rid):
+    """After prepare_for_resubmission the two counters equal the counts over the job states it leaves behind:
+    evaluated over the finite abstraction (job selected?) x (state before) for one pass of the reset loop."""
+    pf = ctx.ix.try_func("Cluster._prepare_for_resubmission") or ctx.fn("Cluster.prepare_for_resubmission", rid)
+    ctx.counters["functions"].add(pf.qual)
+    setname = next((p for p in pf.params if p == "jobs_to_resubmit"), None)
+    if setname is None:
+        raise AnalysisError(rid, f"{pf.short} has no jobs_to_resubmit parameter")
+    loops = [n for n in iter_own(pf.node) if isinstance(n, ast.For) and any(isinstance(x, ast.Assign) and any(isinstance(t, ast.Attribute) and t.attr == "state" for t in x.targets) for x in ast.walk(n))]
+    if len(loops) != 1:
+        raise AnalysisError(rid, f"expected one reset loop in {pf.short}, found {len(loops)}")
+    lp = loops[0]
+    it = lp.iter
+    if not ((isinstance(it, ast.Call) and not it.args and not it.keywords and ctx.src(it.func).endswith("iter_jobs")) or render(ctx, pf, it) == "<JobStatus.jobs>"):
+        raise AnalysisError(rid, f"the reset loop iterates `{ctx.src(it)}`, not every job: the cell abstraction does not apply (C13.4 decides the loop domain)")
+    counters = ("submitted_jobs", "completed_jobs")
+    stray = [n for n in iter_own(pf.node) if isinstance(n, ast.AugAssign) and isinstance(n.target, ast.Attribute) and n.target.attr in counters and not any(l is lp for l in ctx.enclosing(pf, n, (ast.For,)))]
+    if stray:
+        raise AnalysisError(rid, f"counter update `{ctx.src(stray[0])}` outside the reset loop: shape not supported")
+    want = {"submitted_jobs": lambda s: s != "NOT_SUBMITTED", "completed_jobs": lambda s: s == "DONE"}
+    zero = {}
+    for n in iter_own(pf.node):
+        if isinstance(n, ast.Assign) and len(n.targets) == 1 and isinstance(n.targets[0], ast.Attribute) and n.targets[0].attr in counters and not any(l is lp for l in ctx.enclosing(pf, n, (ast.For,))):
+            c = n.targets[0].attr
+            isz = isinstance(n.value, ast.Constant) and n.value.value == 0
+            zero[c] = isz
+            if not isz:
+                r.bad(key_of(pf, f"{c} not recounted from the job states"), pf.loc(n),
+                      f"`{ctx.src(n)}`: after the reset {c} is computed arithmetically, not counted over the states the reset leaves behind. It is right only if every job outside the rerun set is "
+                      "submitted or done; a job that is still not_submitted in a complete submission (it waits for a missing job of a killed batch) and is not selected (--no-missing) is counted as submitted: "
+                      "submitted_jobs exceeds the number of jobs marked submitted or done, and all_jobs_submitted() can hold with unsubmitted jobs left",
+                      "submitted equals the number marked submitted or done")
+    for c in counters:
+        if c not in zero:
+            r.bad(key_of(pf, f"{c} not reset"), pf.loc(), f"{pf.short} does not re-initialise {c}", "completed equals the number of jobs marked done, submitted equals the number marked submitted or done")
+    paths = list(iteration_paths(ctx, pf, lp, with_path=True))
+    ctx.counters["paths"] += len(paths)
+    for selected in (True, False):
+        for state in _STATES:
+            feas = []
+            for end, conds, last, path in paths:
+                cur, ok, incs = state, True, {c: 0 for c in counters}
+                for node, kind, cond in path:
+                    if kind in ("T", "F") and cond is not None:
+                        v = _eval_reset_cond(ctx, cond, selected, cur, setname)
+                        if v is None:
+                            raise AnalysisError(rid, f"condition `{ctx.src(cond)}` in the reset loop is not over (selected, state)")
+                        if v != (kind == "T"):
+                            ok = False
+                            break
+                    a = node.ast
+                    if node.kind == "stmt" and isinstance(a, ast.Assign) and any(isinstance(t, ast.Attribute) and t.attr == "state" for t in a.targets):
+                        if not (isinstance(a.value, ast.Attribute) and a.value.attr in _STATES):
+                            raise AnalysisError(rid, f"state store `{ctx.src(a)}` is not a JobState constant")
+                        cur = a.value.attr
+                    if node.kind == "stmt" and isinstance(a, ast.AugAssign) and isinstance(a.op, ast.Add) and isinstance(a.target, ast.Attribute) and a.target.attr in counters:
+                        if not (isinstance(a.value, ast.Constant) and a.value.value == 1):
+                            raise AnalysisError(rid, f"counter update `{ctx.src(a)}` is not += 1")
+                        incs[a.target.attr] += 1
+                if ok:
+                    feas.append((end, cur, incs))
+            if len(feas) != 1 or feas[0][0] != "next":
+                raise AnalysisError(rid, f"cell (selected={selected}, state={state}) has {len(feas)} feasible iteration paths")
+            _, final, incs = feas[0]
+            okf = final == ("NOT_SUBMITTED" if selected else state)
+            r.check(okf, f"cell selected={selected} state={state}: final state {final}", key_of(pf, f"reset cell selected={selected} {state} -> {final}"), pf.loc(lp),
+                    f"a job with selected={selected} in state {state} is left in state {final}", "reruns exactly the jobs selected")
+            for c in counters:
+                if zero.get(c):
+                    exp = 1 if want[c](final) else 0
+                    r.check(incs[c] == exp, f"cell selected={selected} state={state}: {c} += {exp}", key_of(pf, f"{c} recount: selected={selected} state={state} counted {incs[c]}x"), pf.loc(lp),
+                            f"a job with selected={selected} that is {state} before the reset ends {final} and is counted {incs[c]} time(s) in {c} (expected {exp})",
+                            "completed equals the number of jobs marked done, submitted equals the number marked submitted or done")
+
+
+@rule(P, "C09.8", "T11", "resubmission reset: both counters are recounted from the job states it leaves behind (finite abstraction selected x state)", min_obligations=6)
+def c09_8(ctx, r):
+    reset_recounts_from_states(ctx, r, "C09.8")
